@@ -9,6 +9,7 @@ the least fixpoint of the dataflow equations.
 import OpenFGAVerif.Proofs.CycleLive
 import OpenFGAVerif.Proofs.CycleData
 import OpenFGAVerif.Gen.Cycle
+import OpenFGAVerif.Props.PipelineRecv
 
 namespace OpenFGAVerif.C21
 open OpenFGAVerif.Model.Cycle OpenFGAVerif.Proofs.Cycle OpenFGAVerif.Model.CycleData OpenFGAVerif.Proofs.CycleData
